@@ -141,3 +141,6 @@ def run(ctx):
                     direct.append(k)
         ctx.ob('C08.R5', name, 'one atomic batch per block (exactly one commit, no other durable write)', ncommit == 1 and not direct,
                commits=ncommit, other_writes=sorted(set(direct)))
+    # reviewed reference of the storage functions' durable writes (engine/census.py)
+    from rules import census_fns
+    census_fns.run(ctx, 'C08')
